@@ -8,8 +8,38 @@ fn with_flag<D: Dump>(d: &D, flag: bool) -> Out {
     Out::Ok(w)
 }
 
+/// `canon[i]` = first position whose conditional has the same numbers (bit for bit) as entry `i`.
+fn canon_of(sc: &[V], w: usize) -> Vec<usize> {
+    let rows: Vec<String> = sc
+        .chunks(w)
+        .map(|c| {
+            let mut k = String::new();
+            c.iter().for_each(|v| v.put(&mut k));
+            k
+        })
+        .collect();
+    (0..rows.len()).map(|i| (0..=i).find(|&j| rows[j] == rows[i]).unwrap()).collect()
+}
+
+/// Result of a deduction through a by-reference table with shared entries (`r1`) next to the
+/// ordinary by-value table (`r0`): `r1`'s tokens, the fallback flag if any, then `T|F`: same bits.
+fn shared_out<D: Dump>(r1: Option<D>, r0: Option<D>, flag: Option<bool>) -> Out {
+    match (r1, r0) {
+        (None, None) => Out::NoneV,
+        (None, Some(_)) => Out::Ok(" F".into()),
+        (Some(d1), r0) => {
+            let mut w = dump_key(&d1);
+            if let Some(fl) = flag {
+                fl.dump(&mut w);
+            }
+            r0.map_or(false, |d0| dump_key(&d0) == dump_key(&d1)).dump(&mut w);
+            Out::Ok(w)
+        }
+    }
+}
+
 // mbr / deduce / deduce_with / inverse over a 1-D antecedent domain X (n) and consequent Y (m)
-fn op_cond(op: &str, f: char, st: &str, ints: &[i64], sc: &[V]) -> Out {
+fn op_cond(op: &str, f: char, st: &str, shared: bool, ints: &[i64], sc: &[V]) -> Out {
     need!(ints.len() == 2);
     let Some(&[n]) = us(&ints[..1], 2, 4).as_deref() else { return Out::Unsup };
     let Some(&[m]) = us(&ints[1..], 2, 3).as_deref() else { return Out::Unsup };
@@ -22,6 +52,7 @@ fn op_cond(op: &str, f: char, st: &str, ints: &[i64], sc: &[V]) -> Out {
     };
     need!(sc.len() == expected);
     need!(st == "o" || st == "r");
+    need!(!shared || op == "deduce" || op == "deduce_with");
     macro_rules! body {
         ($F:ident $n:tt $m:tt) => {{
             type T = c1!($F, X, $n, V);
@@ -43,6 +74,18 @@ fn op_cond(op: &str, f: char, st: &str, ints: &[i64], sc: &[V]) -> Out {
                 "deduce" => {
                     let w: Opinion<T, V> = mk_o(&sc[..2 * $n + 1]);
                     let conds: C = mk_c(&sc[2 * $n + 1..], $m);
+                    if shared {
+                        // table of references in which entries with equal values are ONE object
+                        let canon = canon_of(&sc[2 * $n + 1..], $m + 1);
+                        let ct = conds.rt_shared(&canon);
+                        let r1: Option<Opinion<U, V>> = if st == "o" {
+                            Deduction::deduce(&w, &ct)
+                        } else {
+                            Deduction::deduce(w.as_ref(), &ct)
+                        };
+                        let r0: Option<Opinion<U, V>> = Deduction::deduce(&w, &conds);
+                        return shared_out(r1, r0, None);
+                    }
                     let r: Option<Opinion<U, V>> = if st == "o" {
                         Deduction::deduce(&w, &conds)
                     } else {
@@ -60,6 +103,17 @@ fn op_cond(op: &str, f: char, st: &str, ints: &[i64], sc: &[V]) -> Out {
                         flag.set(true);
                         ay.clone()
                     };
+                    if shared {
+                        let canon = canon_of(&sc[2 * $n + 1..2 * $n + 1 + CL], $m + 1);
+                        let ct = conds.rt_shared(&canon);
+                        let r1: Opinion<U, V> = if st == "o" {
+                            Deduction::deduce_with(&w, &ct, fb)
+                        } else {
+                            Deduction::deduce_with(w.as_ref(), &ct, fb)
+                        };
+                        let r0: Opinion<U, V> = Deduction::deduce_with(&w, &conds, || ay.clone());
+                        return shared_out(Some(r1), Some(r0), Some(flag.get()));
+                    }
                     let r: Opinion<U, V> = if st == "o" {
                         Deduction::deduce_with(&w, &conds, fb)
                     } else {
@@ -133,7 +187,7 @@ fn op_abduce(op: &str, f: char, st: &str, t3: &str, ints: &[i64], sc: &[V]) -> O
 }
 
 // deduce_with over a 2-D antecedent (M: MArr2, D/N: MArrD2 with roles X,Z), consequent Y (m)
-fn op_deduce2(f: char, st: &str, ints: &[i64], sc: &[V]) -> Out {
+fn op_deduce2(f: char, st: &str, shared: bool, ints: &[i64], sc: &[V]) -> Out {
     let Some(&[n0, n1, m]) = us(ints, 2, 3).as_deref() else { return Out::Unsup };
     let k = n0 * n1;
     need!(sc.len() == 2 * k + 1 + k * (m + 1) + m);
@@ -154,6 +208,17 @@ fn op_deduce2(f: char, st: &str, ints: &[i64], sc: &[V]) -> Out {
                 flag.set(true);
                 ay.clone()
             };
+            if shared {
+                let canon = canon_of(&sc[2 * K + 1..2 * K + 1 + CL], $m + 1);
+                let ct = conds.rt_shared(&canon);
+                let r1: Opinion<U, V> = if st == "o" {
+                    Deduction::deduce_with(&w, &ct, fb)
+                } else {
+                    Deduction::deduce_with(w.as_ref(), &ct, fb)
+                };
+                let r0: Opinion<U, V> = Deduction::deduce_with(&w, &conds, || ay.clone());
+                return shared_out(Some(r1), Some(r0), Some(flag.get()));
+            }
             let r: Opinion<U, V> = if st == "o" {
                 Deduction::deduce_with(&w, &conds, fb)
             } else {
